@@ -40,7 +40,13 @@ var knownOpen = map[string]bool{
 	"error-keyed-to-last-token-before-newline": true,
 }
 
-func isOpen(r *vk.Run, class string) bool { return knownOpen[class] || r.OpenClass(class) }
+// C15_NOEXCLUDE=1 ignores the table for one run (shows what the excluded classes still do on the current tree).
+func isOpen(r *vk.Run, class string) bool {
+	if os.Getenv("C15_NOEXCLUDE") != "" {
+		return false
+	}
+	return knownOpen[class] || r.OpenClass(class)
+}
 
 // ---- tables ------------------------------------------------------------------------
 
@@ -105,6 +111,7 @@ var ctxs = []ctx{
 type kind struct {
 	name, family string
 	setup        string
+	lead         string // valid opening part of the same construct, before the failing tag
 	tag, tail    string
 	runtime      bool // the error is raised while rendering (else: while parsing)
 	loopOnly     bool // not a fault inside a loop body (break / continue)
@@ -131,6 +138,11 @@ var kinds = []kind{
 	{name: "no such field", family: "type-error", tag: `<%= xs.Nope %>`, runtime: true},
 	{name: "call of a non-function", family: "type-error", tag: `<%= xs() %>`, runtime: true},
 	{name: "dangling operator", family: "type-error", tag: `<%= 1 + %>`, runtime: true},
+	{name: "minus without operand", family: "type-error", tag: `<%= - %>`, runtime: true},
+	{name: "index of an int", family: "type-error", tag: `<%= xs[1][2] %>`, runtime: true},
+	{name: "invalid regular expression", family: "type-error", tag: `<%= "a" ~= "(" %>`, runtime: true},
+	{name: "no such field, nested", family: "type-error", tag: `<%= one.Foo.Bar %>`, runtime: true},
+	{name: "failing helper in else-if condition", family: "failing-helper", lead: "<%= if (false) { %>\nc\n", tag: `<% } else if (boom()) { %>`, tail: `d<% } %>`, runtime: true},
 	{name: "index out of range", family: "index-out-of-range", tag: `<%= xs[9] %>`, runtime: true},
 	{name: "index out of range on literal", family: "index-out-of-range", tag: `<%= [1,2][5] %>`, runtime: true},
 	{name: "division by zero", family: "division-by-zero", tag: `<%= 1 / 0 %>`, runtime: true},
@@ -147,6 +159,13 @@ var kinds = []kind{
 	{name: "open index", family: "unbalanced", tag: `<%= xs[ %>`, keyedToEnd: true},
 	{name: "open call", family: "unbalanced", tag: `<%= boom( %>`, keyedToEnd: true},
 	{name: "open call after comma", family: "unbalanced", tag: `<%= boom(1, %>`, keyedToEnd: true},
+	{name: "open paren", family: "unbalanced", tag: `<%= ( %>`, keyedToEnd: true},
+	{name: "open array after comma", family: "unbalanced", tag: `<%= [1, %>`, keyedToEnd: true},
+	{name: "open hash after colon", family: "unbalanced", tag: `<%= {"a": %>`, keyedToEnd: true},
+	{name: "open fn parameters", family: "unbalanced", tag: `<%= fn( %>`, keyedToEnd: true},
+	{name: "open if condition", family: "unbalanced", tag: `<%= if ( %>`, keyedToEnd: true},
+	{name: "open for header", family: "unbalanced", tag: `<%= for ( %>`},
+	{name: "call arguments without comma", family: "unbalanced", tag: `<%= boom(1 2) %>`},
 	{name: "stray )", family: "unbalanced", tag: `<%= ) %>`},
 	{name: "stray ]", family: "unbalanced", tag: `<%= ] %>`},
 	{name: "stray }", family: "unbalanced", tag: `<%= } %>`},
@@ -157,6 +176,10 @@ var kinds = []kind{
 	{name: "if missing (", family: "missing-brace-or-paren", tag: `<%= if true { %>`, tail: `c<% } %>`},
 	{name: "for missing {", family: "missing-brace-or-paren", tag: `<%= for (w) in xs %>`, tail: `c<% } %>`},
 	{name: "for missing ( )", family: "missing-brace-or-paren", tag: `<%= for w in xs { %>`, tail: `c<% } %>`},
+	{name: "else missing {", family: "missing-brace-or-paren", lead: "<%= if (true) { %>\nc\n", tag: `<% } else %>`, tail: `d<% } %>`},
+	{name: "else if missing ( )", family: "if-without-condition", lead: "<%= if (true) { %>c", tag: `<% } else if { %>`, tail: `d<% } %>`},
+	{name: "let missing name after let", family: "malformed-let", tag: `<% let q = 1 let %>`},
+	{name: "return in emit tag", family: "illegal-character", tag: `<%= return %>`},
 	{name: "fn missing {", family: "missing-brace-or-paren", tag: `<%= fn(p) %>`},
 	{name: "fn missing )", family: "missing-brace-or-paren", tag: `<%= fn(p { } %>`},
 	{name: "illegal character @", family: "illegal-character", tag: `<%= 1 @ 2 %>`},
@@ -313,6 +336,9 @@ func check(r *vk.Run, c Case) *vk.Fail {
 				continue // the fault is raised while rendering
 			}
 			atomic.AddInt64(&noError, 1)
+			if os.Getenv("C15_TRACE") != "" {
+				fmt.Printf("NOERR %s | %s | %q\n", c.Kind, c.Ctx, src)
+			}
 			r.Exclude("no error returned (subject of C05)")
 			return nil
 		}
@@ -370,12 +396,15 @@ func build(cl cell) (c Case, classes []string, ok bool) {
 	if k.loopOnly && x.loop {
 		return c, nil, false
 	}
+	if k.toEOF && k.runtime && x.name == "function" {
+		return c, nil, false // the unterminated tag swallows the call of the function: nothing fails
+	}
 	tag := layout(k.tag, cl.lay)
 	if cl.lay != layFlat && tag == k.tag {
 		return c, nil, false
 	}
 	post := k.tail + gaps[cl.gap] + x.post + suffixes[cl.suffix] + cl.extra
-	c = Case{Kind: k.name, Ctx: x.name, Pre: vk.Text(cl.prefix + k.setup + x.pre), Tag: vk.Text(tag), Post: vk.Text(post), ToEOF: k.toEOF}
+	c = Case{Kind: k.name, Ctx: x.name, Pre: vk.Text(cl.prefix + k.setup + x.pre + k.lead), Tag: vk.Text(tag), Post: vk.Text(post), ToEOF: k.toEOF}
 	if k.number {
 		classes = append(classes, "parse-number-literal-message")
 	}
@@ -452,6 +481,23 @@ func validate() error {
 		}
 	}
 	return nil
+}
+
+// pick returns the indexes of the named prefixes.
+func pick(names ...string) []int {
+	var out []int
+	for _, n := range names {
+		found := false
+		for i, p := range prefixes {
+			if p.name == n {
+				out, found = append(out, i), true
+			}
+		}
+		if !found {
+			panic("no prefix named " + n)
+		}
+	}
+	return out
 }
 
 // ---- random composition ------------------------------------------------------------------------
@@ -556,39 +602,61 @@ func TestProp(t *testing.T) {
 	}
 	r.ReplayCommitted()
 
-	// E1: kinds x contexts x prefixes x gaps x suffixes x layouts, a few shifts per cell
-	lays := []int{layFlat, layAllLF, layAllCRLF, layAfterOpen, layBeforeEnd, layStringLF}
-	pfx := prefixes
-	if r.Quick() {
-		lays = []int{layFlat, layAllLF, layBeforeEnd}
-	}
-	dims := []int{len(kinds), len(ctxs), len(pfx), len(gaps), len(suffixes), len(lays)}
-	total := int64(1)
-	for _, d := range dims {
-		total *= int64(d)
-	}
-	r.Subspace(fmt.Sprintf("%d failing kinds x %d contexts x %d prefixes x %d gaps x %d suffixes x %d layouts (cells that are no fault by construction skipped), 3 shifts each",
-		dims[0], dims[1], dims[2], dims[3], dims[4], dims[5]), total, true)
-	r.Parallel(total, 0, func(i int64) {
-		j := i
-		next := func(n int) int { v := int(j % int64(n)); j /= int64(n); return v }
-		var cl cell
-		cl.lay = lays[next(len(lays))]
-		cl.suffix = next(len(suffixes))
-		cl.gap = next(len(gaps))
-		p := pfx[next(len(pfx))]
-		cl.prefix, cl.prefixRunsBlock = p.text, p.runsBlock
-		cl.ctx = next(len(ctxs))
-		cl.kind = next(len(kinds))
-		shiftText := ""
-		if i%2 == 1 {
-			shiftText = "zz <b> \\ % >"
+	// E: products of the tables. sweep runs kinds x contexts x the given prefixes x gaps x suffixes x layouts;
+	// with rotate the gap and the suffix are not multiplied out but rotate with the cell index.
+	seq := func(n int) []int {
+		out := make([]int, n)
+		for i := range out {
+			out[i] = i
 		}
-		r.Check(trace(runCell(r, cl, []int{1, 2 + int(i*7%48), 50}, shiftText)))
-	})
+		return out
+	}
+	sweep := func(name string, pfx, gp, sf, lays []int, rotate bool, nshift int) {
+		dims := []int{len(lays), len(sf), len(gp), len(pfx), len(ctxs), len(kinds)}
+		if rotate {
+			dims[1], dims[2] = 1, 1
+		}
+		total := int64(1)
+		for _, d := range dims {
+			total *= int64(d)
+		}
+		r.Subspace(fmt.Sprintf("%s: %d failing kinds x %d contexts x %d prefixes x %d gaps x %d suffixes x %d layouts, %d shifts each (cells that are no fault by construction are skipped)",
+			name, dims[5], dims[4], dims[3], dims[2], dims[1], dims[0], nshift), total, true)
+		r.Parallel(total, 0, func(i int64) {
+			j := i
+			next := func(n int) int { v := int(j % int64(n)); j /= int64(n); return v }
+			var cl cell
+			cl.lay = lays[next(dims[0])]
+			cl.suffix = sf[next(dims[1])]
+			cl.gap = gp[next(dims[2])]
+			if rotate {
+				cl.suffix, cl.gap = sf[int(i/7)%len(sf)], gp[int(i)%len(gp)]
+			}
+			p := prefixes[pfx[next(dims[3])]]
+			cl.prefix, cl.prefixRunsBlock = p.text, p.runsBlock
+			cl.ctx = next(dims[4])
+			cl.kind = next(dims[5])
+			shiftText := ""
+			if i%2 == 1 {
+				shiftText = "zz <b> \\ % >"
+			}
+			shifts := []int{1, 2 + int(i*7%48), 50}
+			if nshift == 2 {
+				shifts = []int{1 + int(i%2)*49, 2 + int(i*7%48)}
+			}
+			r.Check(trace(runCell(r, cl, shifts, shiftText)))
+		})
+	}
+	allLays := seq(nLayouts)
+	if r.Quick() {
+		sweep("every prefix", seq(len(prefixes)), seq(len(gaps)), seq(len(suffixes)), []int{layFlat, layAllLF}, true, 2)
+		sweep("every gap, suffix and layout", pick("empty", "multi-line double-quoted string", "if block"), seq(len(gaps)), seq(len(suffixes)), allLays, false, 2)
+	} else {
+		sweep("full product", seq(len(prefixes)), seq(len(gaps)), seq(len(suffixes)), allLays, false, 3)
+	}
 
 	// E2: every shift 1..50 for every kind x context (x 2 prefixes x 2 gaps)
-	e2p := []int{1, 6}
+	e2p := pick("one text line", "multi-line double-quoted string")
 	e2g := []int{0, 3}
 	r.Subspace("every shift k=1..50 x failing kinds x contexts x 2 prefixes x 2 gaps", int64(len(kinds)*len(ctxs)*len(e2p)*len(e2g)), true)
 	all := make([]int, 50)
